@@ -31,7 +31,11 @@ type Viol struct {
 	T    int64  `json:"t"`
 	RID  string `json:"rid,omitempty"`
 	Sig  string `json:"sig"` // short machine-readable class
-	Msg  string `json:"msg"`
+	// Holder is the resource holding the dangling reference (dangling only).
+	Holder string `json:"holder,omitempty"`
+	// DropT is the clock at which the client last dropped RID (0 = never).
+	DropT int64  `json:"drop_t,omitempty"`
+	Msg   string `json:"msg"`
 }
 
 func (v Viol) String() string {
@@ -87,7 +91,7 @@ type RefClient struct {
 	EverTentative map[string]bool
 	// DropPending marks rids the client dropped while one of its requests was
 	// still unanswered (the gateway may count that request as a subscription).
-	DropPending    map[string]bool
+	DropGroup      map[string][]string
 	Unsubs         []UnsubCheck
 	Debug          bool
 	Redundant      int // resources re-sent although already held
@@ -97,6 +101,10 @@ type RefClient struct {
 	// Overlap reports whether another request on the same rid is outstanding
 	// (set by the driver; nil = never).
 	Overlap func(rid string, id uint64) bool
+	// RootErrorKeeps, if set by the driver, tells whether the gateway keeps a
+	// direct subscription for a resource response whose root is an error
+	// entry (it does when the get failed, not when access was refused).
+	RootErrorKeeps func(rid string, t int64) (keeps, known bool)
 	// UnsubEvents counts unsubscribe events per rid with reason code.
 	UnsubEvents []DelivEv
 }
@@ -108,7 +116,7 @@ func NewRefClient(conn, ver int) *RefClient {
 		Cache: map[string]*RCRes{}, Direct: map[string]int{}, Extra: map[string]int{}, EverTentative: map[string]bool{},
 		pool: map[string]*RCRes{}, sent: map[uint64]*SentReq{}, Responses: map[uint64]int{},
 		RespFrame: map[uint64]*Frame{},
-		Delivered: map[string][]DelivEv{}, HandT: map[string]int64{}, DropT: map[string]int64{}, Held: map[string][]HeldInterval{}, DropPending: map[string]bool{},
+		Delivered: map[string][]DelivEv{}, HandT: map[string]int64{}, DropT: map[string]int64{}, Held: map[string][]HeldInterval{}, DropGroup: map[string][]string{},
 	}
 }
 
@@ -128,10 +136,8 @@ func (rc *RefClient) anyPending(t int64) bool {
 }
 
 func (rc *RefClient) viol(prop string, t int64, rid, sig, format string, a ...interface{}) {
-	if prop == "C02" && rc.DropPending[rid] {
-		sig += ".droppedWhilePending"
-	}
-	rc.Viol = append(rc.Viol, Viol{Prop: prop, Conn: rc.Conn, T: t, RID: rid, Sig: sig, Msg: fmt.Sprintf(format, a...)})
+
+	rc.Viol = append(rc.Viol, Viol{Prop: prop, Conn: rc.Conn, T: t, RID: rid, Sig: sig, Msg: fmt.Sprintf(format, a...), DropT: rc.DropT[rid]})
 }
 
 // NoteSent registers a request the client sent.
@@ -185,7 +191,7 @@ func (r *RCRes) refs() []string {
 func (rc *RefClient) ingest(rs *resourceSet, t int64) (rids []string) {
 	add := func(rid string, res *RCRes) {
 		rids = append(rids, rid)
-		if old, ok := rc.Cache[rid]; ok && !old.Deleted && !old.Tentative {
+		if old, ok := rc.Cache[rid]; ok && !old.Deleted && !old.Tentative && old.Kind != RError {
 			// Already held: a client keeps its existing instance.
 			rc.Redundant++
 			return
@@ -194,7 +200,6 @@ func (rc *RefClient) ingest(rs *resourceSet, t int64) (rids []string) {
 		rc.Cache[rid] = res
 		rc.HandT[rid] = t
 		rc.openInterval(rid, t, res)
-		delete(rc.DropPending, rid)
 	}
 	for rid, raw := range rs.Models {
 		var m map[string]interface{}
@@ -246,6 +251,7 @@ func (rc *RefClient) gc(t int64, fromGet []string) {
 						rc.openInterval(ref, t, p)
 					} else {
 						rc.viol("C02", t, ref, "dangling", "resource %s holds a reference to %s which the client has neither data nor error for", rid, ref)
+						rc.Viol[len(rc.Viol)-1].Holder = rid
 						continue
 					}
 				}
@@ -312,6 +318,7 @@ func (rc *RefClient) gc(t int64, fromGet []string) {
 	for _, r := range fromGet {
 		isGet[r] = true
 	}
+	var group []string
 	for rid, res := range rc.Cache {
 		if !reach[rid] {
 			if isGet[rid] {
@@ -320,8 +327,11 @@ func (rc *RefClient) gc(t int64, fromGet []string) {
 			delete(rc.Cache, rid)
 			rc.DropT[rid] = t
 			rc.closeInterval(rid, t)
-			rc.DropPending[rid] = rc.anyPending(t)
+			group = append(group, rid)
 		}
+	}
+	for _, rid := range group {
+		rc.DropGroup[rid] = group
 	}
 	for k, v := range rc.poolKeep {
 		newPool[k] = v
@@ -543,6 +553,14 @@ func (rc *RefClient) processCallResult(f *Frame, action string) {
 	if _, isErr := rs.Errors[rid]; isErr {
 		// The frame does not tell whether the gateway kept a direct
 		// subscription (it does for a failed get, not for denied access).
+		if rc.RootErrorKeeps != nil {
+			if keeps, known := rc.RootErrorKeeps(rid, f.T); known {
+				if keeps {
+					rc.Direct[rid]++
+				}
+				return
+			}
+		}
 		rc.Extra[rid]++
 		return
 	}
@@ -743,4 +761,41 @@ func (rc *RefClient) closeInterval(rid string, t int64) {
 	if n := len(l); n > 0 && l[n-1].To == 0 {
 		l[n-1].To = t
 	}
+}
+
+// TargetPendingAt reports whether, at clock t, a request of this connection
+// that establishes a direct subscription on rid itself was sent but not yet
+// answered: subscribe/get on rid, or a call/auth/new request whose (later)
+// resource response names rid.
+func (rc *RefClient) TargetPendingAt(rid string, t int64) bool {
+	grp := map[string]bool{rid: true}
+	for _, g := range rc.DropGroup[rid] {
+		grp[g] = true
+	}
+	for id, sr := range rc.sent {
+		if sr.Fence || sr.T >= t {
+			continue
+		}
+		f := rc.RespFrame[id]
+		if f != nil && f.T < t {
+			continue
+		}
+		action, r, _ := methodParts(sr.Method)
+		switch action {
+		case "subscribe", "get":
+			if grp[r] {
+				return true
+			}
+		case "call", "auth", "new":
+			if f != nil && f.Error == nil {
+				var res struct {
+					RID *string `json:"rid"`
+				}
+				if json.Unmarshal(f.Result, &res) == nil && res.RID != nil && grp[*res.RID] {
+					return true
+				}
+			}
+		}
+	}
+	return false
 }
